@@ -299,6 +299,14 @@ def step (d : DS) (line : String) : DS × String :=
       match parseValStr v with
       | some v => ({ d with st := some (St.init v), ever := [] }, "ok")
       | none => (d, "bad-op")
+    | ["init", v, mode], _ =>
+      -- the store handle family (`Store::new`, `ArcStore::new`, `Store::from(ArcStore)`) is transparent:
+      -- every handle of one store shares its value, its trigger table and its key tables
+      if mode == "arena" || mode == "arc" || mode == "conv" then
+        match parseValStr v with
+        | some v => ({ d with st := some (St.init v), ever := [] }, "ok")
+        | none => (d, "bad-op")
+      else (d, "bad-op")
     | _, none => (d, "bad-op")
     | [kind, c], some st =>
       match parseChainH st c with
